@@ -479,7 +479,9 @@ def _ac_shapes(tier):
            dict(m=11, p=5, ncp=9, dim=2, centripetal=True, sym=[], table='uniform'),
            # data whose path comes back to a location visited before (equal points at different parameters)
            dict(m=6, p=2, ncp=4, dim=2, centripetal=False, sym=[], table='revisit'),
-           dict(m=9, p=3, ncp=6, dim=3, centripetal=False, sym=[], table='revisit')]
+           dict(m=9, p=3, ncp=6, dim=3, centripetal=False, sym=[], table='revisit'),
+           dict(m=6, p=2, ncp=4, dim=2, centripetal=False, sym=[], table='revisit', alias=True),
+           dict(m=9, p=3, ncp=7, dim=2, centripetal=True, sym=[], table='revisit', alias=True)]
     if tier == 'thorough':
         for c in (False, True):
             out.append(dict(m=7, p=3, ncp=6, dim=2, centripetal=c, sym=[0, 6], table='lattice'))
@@ -493,13 +495,20 @@ def _ac_shapes(tier):
                       'linalg.lu_decomposition', '_linalg.doolittle', 'linalg.forward_substitution',
                       'linalg.backward_substitution', 'BSpline.Curve.evaluate_single'],
           quick=lambda: _ac_shapes('quick'), thorough=lambda: _ac_shapes('thorough'))
-def approx_curve(ctx, m, p, ncp, dim, centripetal, sym, table):
+def approx_curve(ctx, m, p, ncp, dim, centripetal, sym, table, alias=False):
     """requires: m data points (consecutive distinct), p + 2 <= ncp <= m - 1
        ensures : degree p, ncp control points, knot vector of Eqs 9.68-9.69 on uk, P[0] = Q[0], P[-1] = Q[-1],
                  C(0) = Q[0], C(1) = Q[-1], (N^T N) P_interior = R  (Eqs 9.63-9.67)"""
     fit = ctx.geomdl('fitting')
     Q = _points(ctx, m, dim, sym, table)
-    crv = fit.approximate_curve(_copy(Q), p, centripetal=centripetal, ctrlpts_size=ncp)
+    Qin = _copy(Q)
+    if alias:
+        # the data list holds the SAME point object at the two indices where the path revisits a location
+        for i in range(len(Q)):
+            for j in range(i + 2, len(Q)):
+                if all(ctx.is_const(a) and ctx.is_const(b) and ctx.as_fraction(a) == ctx.as_fraction(b) for a, b in zip(Q[i], Q[j])):
+                    Qin[j] = Qin[i]
+    crv = fit.approximate_curve(Qin, p, centripetal=centripetal, ctrlpts_size=ncp)
     uk = fit.compute_params_curve(_copy(Q), centripetal)
     ctx.check_true('degree', crv.degree == p, 'degree=%r, requested %d' % (crv.degree, p))
     ctx.check_true('ctrlpts.count', crv.ctrlpts_size == ncp and len(crv.ctrlpts) == ncp,
